@@ -643,6 +643,21 @@ pub fn stack_probe(n: usize) -> Result<(), String> {
                 vv.iter().map(|b| b.mem_size() - std::mem::size_of::<Box<[()]>>()).sum::<usize>(),
             ];
             assert!(k.iter().all(|x| *x == 0), "size estimation of huge zero-sized-element slices: {:?}", k);
+            // vectors of zero-sized elements report capacity usize::MAX: sums of capacities must not be formed
+            let zv: Vec<Vec<()>> = vec![vec![(); 3], Vec::new(), vec![(); 1]];
+            let za2: [Vec<()>; 2] = [vec![(); 2], vec![(); 5]];
+            let zb: Box<[Vec<[u8; 0]>]> = vec![vec![[0u8; 0]; 4], vec![[0u8; 0]; 1]].into_boxed_slice();
+            let zt: Vec<(Vec<()>, Vec<()>)> = vec![(vec![(); 1], vec![(); 2]), (Vec::new(), vec![(); 9])];
+            let k2 = [
+                zv.heap_size() - zv.capacity() * std::mem::size_of::<Vec<()>>(),
+                za2.heap_size(),
+                zb.heap_size() - zb.len() * std::mem::size_of::<Vec<[u8; 0]>>(),
+                zt.heap_size() - zt.capacity() * std::mem::size_of::<(Vec<()>, Vec<()>)>(),
+                <Vec<()>>::heap_size_sum_iter(|| zv.iter()),
+                <Vec<()>>::heap_size_sum_exact_size_iter(|| zv.iter()),
+                <Vec<()>>::heap_size_sum_iter(|| za2.iter().filter(|_| true)),
+            ];
+            assert!(k2.iter().all(|x| *x == 0), "size estimation of vectors of zero-sized elements: {:?}", k2);
             let za: Vec<[(); 1 << 40]> = { let mut u = Vec::new(); unsafe { u.set_len(1 << 30) }; u };
             assert_eq!(0, za.heap_size());
             assert_eq!(0, <[(); 1 << 40]>::heap_size_sum_iter(|| za.iter().take(3)));
